@@ -1,35 +1,35 @@
 #!/bin/bash
-# run every seeded change against the quick check(s) of its property and every reverted fix against its check;
-# writes seeded/RESULTS.json and updates meta.json detected_by
+# Run every seeded change against the quick check of its property, and every reverted "fix:" commit against the check of
+# its property, each in its own scratch worktree (tools/seedrun_wt.sh), P at a time.  Writes seeded/RESULTS.json and
+# updates each meta.json's detected_by.  usage: tools/seed_matrix.sh [P]
 cd /verif
-/venv/bin/python - <<'PY'
-import json, os, subprocess, glob
-res = {}
+P=${1:-3}
+mkdir -p work/matrix; rm -f work/matrix/*.log
+/venv/bin/python - <<'PY' > work/matrix/jobs.txt
+import json, glob, os
 for d in sorted(glob.glob('/verif/seeded/*/')):
     name = os.path.basename(d.rstrip('/'))
-    meta = json.load(open(d + 'meta.json'))
-    prop = meta['property']
-    out = subprocess.run(['/verif/tools/seedrun.sh', d.rstrip('/'), prop], capture_output=True, text=True).stdout
+    print(d.rstrip('/'), name, json.load(open(d + 'meta.json'))['property'])
+for f in json.load(open('/verif/known_findings.json'))['findings']:
+    if f['status'] == 'fixed':
+        print('revert:' + f['commit'], 'revert-' + f['id'], f['property'])
+PY
+cat work/matrix/jobs.txt | xargs -P$P -L1 sh -c 'tools/seedrun_wt.sh $0 $1 $2 > work/matrix/$1.log 2>&1'
+/venv/bin/python - <<'PY'
+import json, os
+res = {}
+for line in open('/verif/work/matrix/jobs.txt'):
+    src, name, prop = line.split()
+    out = open('/verif/work/matrix/%s.log' % name).read()
     nviol = sum(1 for l in out.split('\n') if l.startswith('VIOLATION'))
-    res[name] = {prop: 'detected (%d replays)' % nviol if nviol else 'MISSED'}
-    meta['detected_by'] = {prop: nviol > 0}
-    json.dump(meta, open(d + 'meta.json', 'w'), indent=1)
-    print(name, res[name], flush=True)
-# reverted fixes
-kf = json.load(open('/verif/known_findings.json'))['findings']
-for f in kf:
-    if f['status'] != 'fixed':
-        continue
-    props = [f['property']]
-    subprocess.run(['git', '-C', '/repo', 'revert', '--no-commit', f['commit']], capture_output=True)
-    try:
-        for p in props:
-            out = subprocess.run(['./check', p, '--tier', 'quick'], capture_output=True, text=True, cwd='/verif').stdout
-            nviol = sum(1 for l in out.split('\n') if l.startswith('VIOLATION'))
-            res['revert-' + f['id']] = {p: 'detected (%d replays)' % nviol if nviol else 'MISSED'}
-            print('revert', f['id'], res['revert-' + f['id']], flush=True)
-    finally:
-        subprocess.run(['git', '-C', '/repo', 'revert', '--abort'], capture_output=True)
-        subprocess.run(['git', '-C', '/repo', 'checkout', '--', '.'], capture_output=True)
+    ran = any(l.startswith(('OK', 'FAIL')) for l in out.split('\n'))
+    res[name] = {prop: ('detected (%d replays)' % nviol) if nviol else ('MISSED' if ran else 'CHECK DID NOT RUN')}
+    mp = '/verif/seeded/%s/meta.json' % name
+    if os.path.exists(mp):
+        meta = json.load(open(mp))
+        meta['detected_by'] = {prop: nviol > 0}
+        json.dump(meta, open(mp, 'w'), indent=1)
 json.dump(res, open('/verif/seeded/RESULTS.json', 'w'), indent=1)
+bad = {k: v for k, v in res.items() if 'detected' not in list(v.values())[0]}
+print(len(res), 'runs;', len(bad), 'not detected:', bad)
 PY
